@@ -50,7 +50,7 @@ impl Node {
             index,
             hash,
             length,
-            parent: flat_tree::parent(index),
+            parent: parent_index(index),
             data: Some(Vec::with_capacity(0)),
             blank,
         }
@@ -66,6 +66,16 @@ impl Node {
             data: None,
             blank: true,
         }
+    }
+}
+
+/// Index of the parent of `index`. `flat_tree::parent` shifts by `depth + 2`, which overflows
+/// for the few `u64` indices of depth 62 and above; those have no parent that fits a `u64`.
+fn parent_index(index: u64) -> u64 {
+    if (!index).trailing_zeros() >= 62 {
+        u64::MAX
+    } else {
+        flat_tree::parent(index)
     }
 }
 
